@@ -135,16 +135,19 @@ def condHolds (θ : Int) : Cond → Bool
   | .notClose ths => ths.all fun c => θ != c * unitsPerQuarterPi
   | .always => true
 
+def ladderAngle (l : Ladder) (g : NGate) : Int :=
+  if l.mod2pi then emod (g.params.getD l.paramIdx 0) twoPi else g.params.getD l.paramIdx 0
+
+def ladderRowOut (r : LadderRow) (alt : Nat) (g : NGate) : List NGate :=
+  match r.alts.getD (if r.alts.length == 1 then 0 else alt) none with
+  | none => [g]
+  | some t => instantiate t g
+
 def ladderGate (l : Ladder) (alt : Nat) (g : NGate) : List NGate :=
   if g.kind != l.kind then [g] else
-  let θ0 := g.params.getD l.paramIdx 0
-  let θ := if l.mod2pi then emod θ0 twoPi else θ0
-  match l.rows.find? (fun r => condHolds θ r.cond) with
+  match l.rows.find? (fun r => condHolds (ladderAngle l g) r.cond) with
   | none => [g]
-  | some r =>
-    match r.alts.getD (if r.alts.length == 1 then 0 else alt) none with
-    | none => [g]
-    | some t => instantiate t g
+  | some r => ladderRowOut r alt g
 
 def ladderPass (ls : List Ladder) (alt : Nat) (c : List NGate) : List NGate :=
   c.flatMap fun g =>
@@ -245,7 +248,7 @@ inductive Pass
   | fuseRot | fuseCHC | normalize (lo : Int)
   | ladder (names : List String) (alt : Nat)
   | clifConv (tset : List Kind)
-  | idElim | idInsert | pauliDec | pauliRotDec | um1 | um2 | cnotRzRzz | cliffApprox
+  | idElim | idInsert (n : Nat) | pauliDec | pauliRotDec | um1 | um2 | cnotRzRzz | cliffApprox
   | rotConv (rots fav : List Kind)
   | gateSetConv (gs : List Kind) (validate : Bool)
 deriving Repr, BEq, Inhabited
@@ -303,7 +306,6 @@ structure Env where
   clifTable : List (Kind × List (List Kind))
   cliff1q : List Kind
   chc : Template
-  nqubits : Nat
 
 mutual
 def runPass (e : Env) : Nat → Pass → List NGate → Except String (List NGate)
@@ -317,7 +319,7 @@ def runPass (e : Env) : Nat → Pass → List NGate → Except String (List NGat
     | .ladder names alt => .ok (ladderPass ((e.ladders.filter fun l => names.contains l.1).map (·.2)) alt c)
     | .clifConv tset => .ok (clifConvPass e.clifTable e.cliff1q tset c)
     | .idElim => .ok (idElimPass c)
-    | .idInsert => .ok (idInsertPass e.nqubits c)
+    | .idInsert n => .ok (idInsertPass n c)
     | .pauliDec => .ok (pauliDecPass c)
     | .pauliRotDec => .ok (pauliRotDecPass c)
     | .um1 | .um2 => .ok c
